@@ -13,11 +13,6 @@ open Mps
 
 def noParam : String → List Val := fun _ => []
 
-/-- the decoder left the embedded `*Commitment` nil (no commitment field on the wire): the first
-    selector `p.<field>` through the nil pointer panics -/
-def nilCommitment (prf : Rec) : Bool :=
-  match prf.get "_nocommitment" with | .bool true => true | _ => false
-def nilCommitmentPanic : String := "nil embedded *Commitment dereferenced"
 
 /-- `e` as an integer from the selected values; `none` = `challenge` returned an error -/
 def challengeInt (pre : List Item) (sel : List Sel) (pub prf : Rec) (rd : Blake3.Output → Int) :
@@ -45,8 +40,8 @@ def challenge (pre : List Item) (pub prf : Rec) := challengeInt pre sel pub prf 
 def verify (pre : List Item) (pub prf : Rec) : Verdict := do
   let n := pub.pkV "Prover"
   let aux := pub.pedV "Aux"
-  -- IsValid
-  if nilCommitment prf then throw nilCommitmentPanic
+  -- IsValid: every field is needed below: a proof with a missing field is not valid
+  if nilCommitment prf || prf.anyNil ["Z1", "Z2", "Z3", "S", "A", "C"] then return false
   if !validateCiphertext n (prf.ctV "A") then return false
   if !isValidNatModN n (prf.natV "Z2") then return false
   if !isInIntervalLEps (prf.intV "Z1") then return false
@@ -78,6 +73,8 @@ def challenge (pre : List Item) (pub prf : Rec) := challengeInt pre sel (fixG pu
 def verify (pre : List Item) (pub prf : Rec) : Verdict := do
   let n := pub.pkV "Prover"
   let aux := pub.pedV "Aux"
+  -- every field is needed below: a proof with a missing field is not valid
+  if nilCommitment prf || prf.anyNil ["Z1", "Z2", "Z3", "S", "A", "Y", "D"] then return false
   if !validateCiphertext n (prf.ctV "A") then return false
   let Y ← needPt prf "Y"
   if isIdentity Y then return false
@@ -112,6 +109,8 @@ def verify (pre : List Item) (pub prf : Rec) : Verdict := do
   let np := pub.pkV "Prover"
   let nv := pub.pkV "Verifier"
   let aux := pub.pedV "Aux"
+  -- every field is needed below: a proof with a missing field is not valid
+  if nilCommitment prf || prf.anyNil ["Z1", "Z2", "Z3", "Z4", "W", "Wy", "A", "Bx", "By", "E", "S", "F", "T"] then return false
   if !validateCiphertext nv (prf.ctV "A") then return false
   if !validateCiphertext np (prf.ctV "By") then return false
   if !isValidNatModN np (prf.natV "Wy") then return false
@@ -153,7 +152,8 @@ def verify (pre : List Item) (pub prf : Rec) : Verdict := do
   let np := pub.pkV "Prover"
   let nv := pub.pkV "Verifier"
   let aux := pub.pedV "Aux"
-  if nilCommitment prf then throw nilCommitmentPanic
+  -- every field is needed below: a proof with a missing field is not valid
+  if nilCommitment prf || prf.anyNil ["Z1", "Z2", "Z3", "Z4", "W", "Wx", "Wy", "A", "Bx", "By", "E", "S", "F", "T"] then return false
   if !validateCiphertext nv (prf.ctV "A") then return false
   if !(validateCiphertext np (prf.ctV "Bx") && validateCiphertext np (prf.ctV "By")) then return false
   if !(isValidNatModN np (prf.natV "Wx") && isValidNatModN np (prf.natV "Wy")) then return false
@@ -196,6 +196,8 @@ def challenge (pre : List Item) (pub prf : Rec) := challengeInt pre sel pub prf 
 def verify (pre : List Item) (pub prf : Rec) : Verdict := do
   let n := pub.pkV "Prover"
   let aux := pub.pedV "Aux"
+  -- every field is needed below: a proof with a missing field is not valid
+  if nilCommitment prf || prf.anyNil ["Z1", "W", "Z2", "Z3", "S", "D", "Y", "Z", "T"] then return false
   if !validateCiphertext n (prf.ctV "D") then return false
   let w ← needSc prf "W"
   if w == 0 then return false
@@ -225,7 +227,7 @@ def verify (pre : List Item) (pub prf : Rec) : Verdict := do
 end Encelg
 
 /-! ## zkdec: pub = {C, X (scalar), Prover, Aux}, proof = {S, T, A, Gamma, Z1, Z2, W}.
-    NO range check on Z1: `EncWithNonce(p.Z1, p.W)` panics when |Z1| > ⌊N/2⌋. -/
+    Z1 is reduced into ±⌊N/2⌋ (`SetModSymmetric`) before `EncWithNonce`, which panics beyond that range. -/
 namespace Dec
 def sel : List Sel :=
   [("public", "Aux"), ("public", "Prover"), ("public", "C"), ("public", "X"),
@@ -236,6 +238,8 @@ def challenge (pre : List Item) (pub prf : Rec) := challengeInt pre sel pub prf 
 def verify (pre : List Item) (pub prf : Rec) : Verdict := do
   let n := pub.pkV "Prover"
   let aux := pub.pedV "Aux"
+  -- every field is needed below: a proof with a missing field is not valid
+  if nilCommitment prf || prf.anyNil ["Z1", "Z2", "W", "S", "T", "A", "Gamma"] then return false
   -- p.Gamma == nil || p.Gamma.IsZero()
   match prf.scV "Gamma" with
   | none => return false
@@ -250,14 +254,15 @@ def verify (pre : List Item) (pub prf : Rec) : Verdict := do
     let w ← needNat prf "W"
     let C ← needCt pub "C"
     let A ← needCt prf "A"
-    if !(← encEq n z1 w C e A) then return false
+    -- z₁ is taken into the plaintext space before it is encrypted
+    if !(← encEq n (symMod z1 n) w C e A) then return false
     let x ← needSc pub "X"
     let g ← needSc prf "Gamma"
     return intMod z1 Secp.n == (intMod e Secp.n * x + g) % Secp.n
 end Dec
 
 /-! ## zkmul: pub = {X, Y, C, Prover}, proof = {A, B, Z, U, V}.
-    NO range check on Z: `EncWithNonce(p.Z, p.V)` panics when |Z| > ⌊N/2⌋ or Z is nil. -/
+    Z is reduced into ±⌊N/2⌋ (`SetModSymmetric`) before `EncWithNonce`, which panics beyond that range. -/
 namespace Mul
 def sel : List Sel :=
   [("public", "Prover"), ("public", "X"), ("public", "Y"), ("public", "C"), ("commitment", "A"), ("commitment", "B")]
@@ -266,8 +271,9 @@ def challenge (pre : List Item) (pub prf : Rec) := challengeInt pre sel pub prf 
 
 def verify (pre : List Item) (pub prf : Rec) : Verdict := do
   let n := pub.pkV "Prover"
+  -- every field is needed below: a proof with a missing field is not valid
+  if nilCommitment prf || prf.anyNil ["Z", "U", "V", "A", "B"] then return false
   if !(isValidNatModN n (prf.natV "U") && isValidNatModN n (prf.natV "V")) then return false
-  if nilCommitment prf then throw nilCommitmentPanic
   if !(validateCiphertext n (prf.ctV "A") && validateCiphertext n (prf.ctV "B")) then return false
   match ← challenge pre pub prf with
   | none => return false
@@ -283,7 +289,8 @@ def verify (pre : List Item) (pub prf : Rec) : Verdict := do
     let zy := match prf.intV "Z" with | some z => ctMul n Y z | none => Y
     if ctRandomize n zy u != ctAdd n (ctMul n C e) A then return false
     let z ← needInt prf "Z"
-    encEq n z v X e B
+    -- z is taken into the plaintext space before it is encrypted
+    encEq n (symMod z n) v X e B
 end Mul
 
 /-! ## zkmulstar: pub = {C, D, X, Verifier, Aux}, proof = {A, Bx, E, S, Z1, Z2, W} -/
@@ -297,6 +304,8 @@ def challenge (pre : List Item) (pub prf : Rec) := challengeInt pre sel pub prf 
 def verify (pre : List Item) (pub prf : Rec) : Verdict := do
   let n := pub.pkV "Verifier"
   let aux := pub.pedV "Aux"
+  -- every field is needed below: a proof with a missing field is not valid
+  if nilCommitment prf || prf.anyNil ["Z1", "Z2", "W", "A", "Bx", "E", "S"] then return false
   if !isValidNatModN n (prf.natV "W") then return false
   if !validateCiphertext n (prf.ctV "A") then return false
   let Bx ← needPt prf "Bx"
@@ -324,6 +333,8 @@ def challenge (pre : List Item) (pub prf : Rec) := challengeInt pre sel pub prf 
 
 def verify (pre : List Item) (pub prf : Rec) : Verdict := do
   let n := pub.pkV "N"
+  -- every field is needed below: a proof with a missing field is not valid
+  if prf.anyNil ["Z", "A"] then return false
   if !isValidNatModN n (prf.natV "Z") then return false
   if !isValidNatModN (n * n) (prf.natV "A") then return false
   match ← challenge pre pub prf with
@@ -346,6 +357,8 @@ def sel : List Sel :=
 def challenge (pre : List Item) (pub prf : Rec) := challengeInt pre sel pub prf intervalL
 
 def verify (pre : List Item) (pub prf : Rec) : Verdict := do
+  -- every field is needed below: a proof with a missing field is not valid
+  if prf.anyNil ["Sigma", "Z1", "Z2", "W1", "W2", "V", "P", "Q", "A", "B", "T"] then return false
   match ← challenge pre pub prf with
   | none => return false
   | some e =>
